@@ -224,7 +224,7 @@ CHECKS["C16"] = dict(
           "refresher's set mutations; TLC checks C16_NoEmptyWindow / C16_ListExact over all interleavings with readers "
           "(MC_DynLists; the as-found clear/update sequence gave the counterexample behind the repair) and validates the "
           "real ListBuilder.run_once, every mutation observed with is_pubkey_allowed asked about every key, against it."),
-    technique="TLA+ Validators.tla / DynLists.tla; bound-class events and observed refresh mutations of the real code validated by TLC; DynLists model-checked over all interleavings")
+    technique="TLA+ Validators.tla / DynLists.tla; bound-class events and observed refresh mutations of the real code validated by TLC; DynLists model-checked over all interleavings by TLC, its inductive invariant discharged by Apalache")
 
 CHECKS["C04"] = dict(
     cat="exploration", ref="DESIGN.md §5 C04", note=RELAY_NOTE + (" The string domain (sub ids, contents, tag items) is sampled by palettes "
